@@ -128,3 +128,73 @@ ben("c10-benign-eq-form", ["C10"], "src/query/insert.rs",
             });
         }
         if !values.is_empty() {""")
+
+# ---- C15 -------------------------------------------------------------------------------------------------------
+brk("c15-take-default-field", ["C15"], "src/query/select.rs", "            lock: self.lock.take(),\n", "            lock: Default::default(),\n", "C15.R1:take:SelectStatement:lock")
+brk("c15-take-clone-sibling", ["C15"], "src/query/select.rs", "            offset: self.offset.take(),\n", "            offset: self.limit.clone(),\n", "C15.R1:take:SelectStatement:offset")
+brk("c15-take-leaves-behind", ["C15"], "src/query/window.rs", "            frame: self.frame.take(),\n", "            frame: self.frame.clone(),\n", "C15.R1:take:WindowStatement:frame:remainder")
+brk("c15-clear-also-limit", ["C15"], "src/query/select.rs",
+    """    pub fn clear_order_by(&mut self) -> &mut Self {
+        self.orders = Vec::new();""",
+    """    pub fn clear_order_by(&mut self) -> &mut Self {
+        self.orders = Vec::new();
+        self.limit = None;""", "C15.R4:clear")
+brk("c15-manual-partialeq", ["C15"], "src/query/window.rs",
+    """#[derive(Debug, Clone, PartialEq)]
+pub struct FrameClause {""",
+    """impl PartialEq for FrameClause {
+    fn eq(&self, other: &Self) -> bool {
+        self.r#type == other.r#type && self.start == other.start
+    }
+}
+#[derive(Debug, Clone)]
+pub struct FrameClause {""", "C15.R2:crate::query::window::FrameClause:PartialEq")
+ben("c15-benign-replace-default", ["C15"], "src/query/select.rs",
+    "            r#where: std::mem::replace(&mut self.r#where, ConditionHolder::new()),\n",
+    "            r#where: std::mem::take(&mut self.r#where),\n")
+
+# ---- C18 -------------------------------------------------------------------------------------------------------
+brk("c18-delete-eq-arm", ["C18"], "src/value.rs", "                (Self::Char(l), Self::Char(r)) => l == r,\n", "", "C18.R1:eq:covered:Char")
+brk("c18-cmp-f32-raw", ["C18"], "src/value.rs",
+    """    fn cmp_f32(l: &Option<f32>, r: &Option<f32>) -> bool {
+        match (l, r) {
+            (Some(l), Some(r)) => OrderedFloat(*l).eq(&OrderedFloat(*r)),""",
+    """    fn cmp_f32(l: &Option<f32>, r: &Option<f32>) -> bool {
+        match (l, r) {
+            (Some(l), Some(r)) => *l == *r,""", "C18.R")
+brk("c18-hash-f64-bits", ["C18"], "src/value.rs",
+    """    fn hash_f64<H: Hasher>(v: &Option<f64>, state: &mut H) {
+        match v {
+            Some(v) => OrderedFloat(*v).hash(state),""",
+    """    fn hash_f64<H: Hasher>(v: &Option<f64>, state: &mut H) {
+        match v {
+            Some(v) => v.to_bits().hash(state),""", "C18.R")
+brk("c18-cross-variant", ["C18"], "src/value.rs", "                (Self::Int(l), Self::Int(r)) => l == r,\n",
+    "                (Self::Int(l), Self::Int(r)) => l == r,\n                (Self::Int(l), Self::BigInt(r)) => l.map(i64::from) == *r,\n", "C18.R1:eq:diagonal")
+brk("c18-json-structural-hash", ["C18"], "src/value.rs",
+    "            Some(v) => serde_json::to_string(v).unwrap().hash(state),", "            Some(v) => v.hash(state),", "C18.R2:json:pair", )
+
+# ---- C12 -------------------------------------------------------------------------------------------------------
+brk("c12-nullable-str-char", ["C12"], "src/value.rs",
+    """impl Nullable for &str {
+    fn null() -> Value {
+        Value::String(None)""",
+    """impl Nullable for &str {
+    fn null() -> Value {
+        Value::Char(None)""", "C12.R1:null")
+brk("c12-cow-second-variant", ["C12"], "src/value.rs",
+    """            Value::String(Some(x)) => Ok((*x).into()),
+            _ => Err(ValueTypeErr),""",
+    """            Value::String(Some(x)) => Ok((*x).into()),
+            Value::Char(Some(c)) => Ok(c.to_string().into()),
+            _ => Err(ValueTypeErr),""", "C12.R1:try_from")
+brk("c12-tuple-swapped", ["C12"], "src/value.rs", "ValueTuple::Three(self.0.into(), self.1.into(), self.2.into())", "ValueTuple::Three(self.0.into(), self.2.into(), self.1.into())", "C12.R4:into:arity3")
+brk("c12-from-tuple-swapped", ["C12"], "src/value.rs", "ValueTuple::Two(v, w) => (v.unwrap(), w.unwrap()),", "ValueTuple::Two(w, v) => (v.unwrap(), w.unwrap()),", "C12.R4:from:arity2")
+brk("c12-as-null-wrong-variant", ["C12"], "src/value.rs", "            Self::SmallUnsigned(_) => Self::SmallUnsigned(None),\n", "            Self::SmallUnsigned(_) => Self::SmallInt(None),\n", "C12.R5:as_null:SmallUnsigned")
+brk("c12-datetime-utc-local", ["C12"], "src/value.rs",
+    """    impl From<DateTime<Local>> for Value {
+        fn from(v: DateTime<Local>) -> Value {
+            Value::ChronoDateTimeLocal(Some(Box::new(v)))""",
+    """    impl From<DateTime<Local>> for Value {
+        fn from(v: DateTime<Local>) -> Value {
+            Value::ChronoDateTimeUtc(Some(Box::new(v.with_timezone(&Utc))))""", "C12.R")
